@@ -54,6 +54,8 @@ SomeDisks ==
       [f \in Files |-> IF f = "f1" THEN "req3" ELSE IF f = "f2" THEN "syn" ELSE "warn"],
       [f \in Files |-> IF f = "f1" THEN "warn" ELSE IF f = "f2" THEN "useg" ELSE "defg"],
       [f \in Files |-> IF f = "f1" THEN "syn" ELSE IF f = "f2" THEN "req3" ELSE Absent] }
+    \cup (IF "dof2" \in Variants     \* a file that names another with its suffix (dofile("f2.lua")): resolved against the disk
+          THEN {[f \in Files |-> IF f = "f1" THEN "dof2" ELSE IF f = "f2" THEN "clean" ELSE Absent]} ELSE {})
 
 WInit == /\ disk \in (IF InitMode = "all" THEN AllDisks ELSE SomeDisks)
          /\ buf = [f \in Files |-> Closed]
